@@ -185,11 +185,31 @@ DIRECTED = [
 ]
 
 
+ALPHABET = [("linkup",), ("linkdown",), ("enable",), ("disable",), ("s1f13",), ("s1f14", 0, True), ("s1f14", 1, True), ("s1f14", 0, False),
+            ("other", True, True), ("other", False, True), ("other", True, False), ("t3",), ("delay",)]
+
+
+def exhaustive(depth):
+    """every sequence of `depth` events behind each of three prefixes (enabled; link up, request pending; communicating)"""
+    import itertools
+    prefixes = [[("enable",)], [("enable",), ("linkup",)], [("enable",), ("linkup",), ("s1f14", 0, True)], [("enable",), ("linkup",), ("t3",)]]
+    for pre in prefixes:
+        for seq in itertools.product(ALPHABET, repeat=depth):
+            yield pre + list(seq)
+
+
 def gen_cases(rnd, tier):
     cases = []
     for host in (False, True):
         for d in DIRECTED:
             cases.append(("directed", host, d))
+    if tier == "thorough":
+        for i, h in enumerate(exhaustive(3)):
+            cases.append(("exhaustive3", i % 2 == 0, h))
+    else:
+        for i, h in enumerate(exhaustive(2)):
+            if i % 3 == 0:
+                cases.append(("exhaustive2", i % 2 == 0, h))
     n = 60 if tier == "quick" else 600
     for _ in range(n):
         cases.append(("random", rnd.random() < 0.4, rand_events(rnd, rnd.randint(2, 14 if tier == "quick" else 40))))
